@@ -4,11 +4,14 @@
     [c : cfg] is what the code is (read off the generated facts: which decorator checks what, whether it
     recurses into MsgExec, whether the wasm handler applies the check, the MAX_COMMISSION constant);
     [w : world] is deployment state (which contracts reflect messages for whom, the gov account, the ICA host
-    allow-list).  Message trees are arbitrary: any nesting depth, any mix of authz MsgExec / wasm dispatch /
-    gov proposals / ICA packets, any position among sibling messages, any grants, any clock. *)
+    allow-list, the members of groups).  Message trees are arbitrary: any nesting depth, any mix of authz MsgExec /
+    wasm dispatch / gov proposals / ICA packets / x/group proposals / messages of any other carrier type, any position
+    among sibling messages, any grants, any clock.  WHICH carrier types the msg service router executes is part of
+    [c] (facts read off the linked application): [cfg_ok] demands that every routed carrier is one the model has a
+    dispatch rule for and that x/group — whose keeper executes proposal messages with no check — is not routed. *)
 From Coq Require Import List Bool ZArith.
 Import ListNotations.
-Require Import Nib.C17.AnteFacts Nib.C17.MsgTree Nib.C17.Model Nib.C17.Spec Nib.C17.Proofs Nib.C17.IcaList.
+Require Import Nib.C17.AnteFacts Nib.C17.CarrierTree Nib.C17.Model Nib.C17.Spec Nib.C17.Proofs Nib.C17.IcaList.
 Local Open Scope Z_scope.
 
 (** The cap over every reachable state: after ANY history of transactions and passed proposals from a
@@ -111,6 +114,13 @@ Theorem C17_cap_refuted_without_wasm_check :
   exists h, only_txs h /\ breaks_cap (run_history cfg_no_wasm_check world_plain (st0 0) h).
 Proof. exact refuted_without_wasm_check. Qed.
 Print Assumptions C17_cap_refuted_without_wasm_check.
+
+(** x/group wired into the application with the committed guards (seeded change C17-group-module-wired): a group
+    proposal submitted with Exec = TRY carries MsgCreateValidator 0.90 for the group policy account past every check. *)
+Theorem C17_cap_refuted_group_wired :
+  exists h, only_txs h /\ breaks_cap (run_history cfg_group_wired world_plain (st0 0) h).
+Proof. exact refuted_group_wired. Qed.
+Print Assumptions C17_cap_refuted_group_wired.
 
 (** OPEN: the committed code with an ICA host whose allow-list admits MsgExec. *)
 Theorem C17_cap_refuted_ica_allows_exec :
